@@ -58,31 +58,34 @@ Proof. vm_compute. split; reflexivity. Qed.
 
 (** ** Session level.  [valid] = the backend's own check of a value, [bdef] = its session
     defaults, [hb] = what pool.rs has_broken answers for a connection returned without
-    check-in.  All three are arbitrary; the hypotheses are stated. *)
+    check-in, [session c] = client c's pool is in session mode (the server is kept from the
+    first message until the client leaves) - any assignment of modes to clients, so both
+    transaction-mode and session-mode pools (and mixtures) are covered.  All four are
+    arbitrary; the hypotheses are stated. *)
 
 (** Before each of a client's messages reaches a server connection, that connection's values of
     the five tracked parameters equal the client's map — for every history of connects, queries
     (any statements, any values), disconnects and aborted client tasks, any number of clients
     and server connections.  Needs: every tracked startup value is one the backend accepts
     ([startup_valid], see [c12_invalid_startup_refuted]) and C02's hand-off rule ([hb]). *)
-Theorem c12_synced_before_statement : forall valid bdef hb,
+Theorem c12_synced_before_statement : forall valid bdef hb session,
   bdef_ok valid bdef = true -> (forall p, is_unclean p = true -> hb p = true) ->
   forall ops, startup_valid valid ops = true ->
   forall c s co dk bv cv evv,
-    In (EvStmt c s co dk bv cv evv) (w_log (run valid bdef hb ops)) -> bv = cv.
+    In (EvStmt c s co dk bv cv evv) (w_log (run valid bdef hb session ops)) -> bv = cv.
 Proof. exact synced_before_statement. Qed.
 Print Assumptions c12_synced_before_statement.
 
 (** The ParameterStatus frames sent at startup are the client's map, and every later forwarded
     frame keeps "what the client was told" equal to the client's map on the tracked keys. *)
-Theorem c12_client_told_same : forall valid bdef hb,
+Theorem c12_client_told_same : forall valid bdef hb session,
   bdef_ok valid bdef = true -> (forall p, is_unclean p = true -> hb p = true) ->
   (forall w c raw ps, w_cli w c = None -> startup_decode raw = Some ps ->
-     exists cl, w_cli (step valid bdef hb w (OConnect c raw)) c = Some cl /\ c_told cl = c_map cl /\
+     exists cl, w_cli (step valid bdef hb session w (OConnect c raw)) c = Some cl /\ c_told cl = c_map cl /\
                 c_map cl = set_from_list (pool bdef) ps false /\
-                w_log (step valid bdef hb w (OConnect c raw)) = EvTold c (c_map cl) :: w_log w) /\
+                w_log (step valid bdef hb session w (OConnect c raw)) = EvTold c (c_map cl) :: w_log w) /\
   (forall ops, startup_valid valid ops = true ->
-     forall c cl, w_cli (run valid bdef hb ops) c = Some cl ->
+     forall c cl, w_cli (run valid bdef hb session ops) c = Some cl ->
      forall k, tracked k = true -> pget k (c_map cl) = pget k (c_told cl)).
 Proof. exact told_same_all. Qed.
 Print Assumptions c12_client_told_same.
@@ -91,16 +94,16 @@ Print Assumptions c12_client_told_same.
     terminating empty name; names resolved ignoring case as PostgreSQL does; values as sent:
     empty, non-ASCII ...), then the server's reports - for every history, no guard (the guards
     that findings D1-D3 needed are gone with repairs 5c1953d and 68af9b4). *)
-Theorem c12_established : forall valid bdef hb ops,
+Theorem c12_established : forall valid bdef hb session ops,
   forall c s co dk bv cv evv,
-    In (EvStmt c s co dk bv cv evv) (w_log (run valid bdef hb ops)) -> cv = evv.
+    In (EvStmt c s co dk bv cv evv) (w_log (run valid bdef hb session ops)) -> cv = evv.
 Proof. exact established. Qed.
 Print Assumptions c12_established.
 
 (** No cross-client visibility, part 1: nothing another client does touches a client's map, the
     record of what it was told, or what it established. *)
-Theorem c12_no_cross_client_frame : forall valid bdef hb w o c,
-  op_client o <> c -> w_cli (step valid bdef hb w o) c = w_cli w c.
+Theorem c12_no_cross_client_frame : forall valid bdef hb session w o c,
+  op_client o <> c -> w_cli (step valid bdef hb session w o) c = w_cli w c.
 Proof. exact step_frame. Qed.
 Print Assumptions c12_no_cross_client_frame.
 
@@ -108,12 +111,12 @@ Print Assumptions c12_no_cross_client_frame.
     after a checkout) its tracked values are that client's own (by sync) and no untracked GUC
     is off its default (by RESET ALL at check-in), given C02's hand-off rule [hb] and the
     property's scope (no SET of an untracked GUC inside a transaction block: [w_oos]). *)
-Theorem c12_no_cross_client : forall valid bdef hb,
+Theorem c12_no_cross_client : forall valid bdef hb session,
   bdef_ok valid bdef = true -> (forall p, is_unclean p = true -> hb p = true) ->
   forall ops, startup_valid valid ops = true ->
   forall c s dk bv cv evv,
-    In (EvStmt c s true dk bv cv evv) (w_log (run valid bdef hb ops)) ->
-    bv = cv /\ (w_oos (run valid bdef hb ops) = false -> dk = []).
+    In (EvStmt c s true dk bv cv evv) (w_log (run valid bdef hb session ops)) ->
+    bv = cv /\ (w_oos (run valid bdef hb session ops) = false -> dk = []).
 Proof. exact no_cross_client. Qed.
 Print Assumptions c12_no_cross_client.
 
@@ -138,7 +141,32 @@ Example c12_nonvacuous :
   count_stmts (run_mock ops_good) = 9%nat /\
   stmt_mismatch (run_mock ops_good) = false /\ est_mismatch (run_mock ops_good) = false /\
   dirty_handoff (run_mock ops_good) = false /\
-  w_oos (run marker_valid MOCK_DEF is_unclean ops_good) = false.
+  w_oos (run marker_valid MOCK_DEF is_unclean no_session ops_good) = false.
+Proof. vm_compute. repeat split; reflexivity. Qed.
+
+(** session mode: one checkout (with sync) at the first message, the server is kept across
+    messages outside transactions, a client that needs the same connection waits, check-in
+    (RESET ALL) when the session client leaves, the next client is synced and gets a clean
+    connection *)
+Definition ops_sess : list op :=
+  [OConnect 0 [u; (K_app, B "sess'app"); (B "TIMEZONE", B "Europe/Paris")]; OConnect 1 [u; (K_app, B "other")];
+   OQuery 0 0 q1; OQuery 0 0 [SSet false K_date (B "German")]; OQuery 0 0 [SSet false (B "statement_timeout") (B "5")];
+   OQuery 1 0 q1; OQuery 0 0 q1; ODisconnect 0; OQuery 1 0 q1].
+Example c12_session_mode_nonvacuous :
+  startup_valid marker_valid ops_sess = true /\
+  count_stmts (run_mock_s ops_sess) = 5%nat /\
+  stmt_mismatch (run_mock_s ops_sess) = false /\ est_mismatch (run_mock_s ops_sess) = false /\
+  dirty_handoff (run_mock_s ops_sess) = false /\
+  List.length (filter (fun e => match e with EvSync 0 0 _ => true | _ => false end) (run_mock_s ops_sess)) = 1%nat /\
+  existsb (fun e => match e with EvClean 0 false true => true | _ => false end) (run_mock_s ops_sess) = true /\
+  existsb (fun e => match e with
+                    | EvStmt 0 0 true _ bv _ _ => opt_beq (nth 2 bv None) (Some (B "Europe/Paris")) && opt_beq (nth 4 bv None) (Some (B "sess'app"))
+                    | _ => false end) (run_mock_s ops_sess) = true /\
+  existsb (fun e => match e with
+                    | EvStmt 1 0 true dk bv _ _ => is_nil_l dk && opt_beq (nth 1 bv None) (Some (B "ISO, MDY")) && opt_beq (nth 4 bv None) (Some (B "other"))
+                    | _ => false end) (run_mock_s ops_sess) = true /\
+  (* in transaction mode the same operations check out five times *)
+  count_stmts (run_mock ops_sess) = 6%nat.
 Proof. vm_compute. repeat split; reflexivity. Qed.
 
 (** D-invalid: a client whose startup packet carries a value the backend refuses for ONE tracked
@@ -205,7 +233,7 @@ Definition ops_abort : list op :=
    OQuery 1 0 q1].
 Example c12_hb_needed_refuted :
   startup_valid marker_valid ops_abort = true /\
-  stmt_mismatch (rev (w_log (run marker_valid MOCK_DEF (fun _ => false) ops_abort))) = true /\
+  stmt_mismatch (rev (w_log (run marker_valid MOCK_DEF (fun _ => false) no_session ops_abort))) = true /\
   stmt_mismatch (run_mock ops_abort) = false.
 Proof. vm_compute. repeat split; reflexivity. Qed.
 
@@ -214,8 +242,8 @@ Definition ops_abort2 : list op :=
    OQuery 0 0 [SSet false (B "statement_timeout") (B "5"); SBegin]; OAbort 0;
    OQuery 1 0 [SCommit]; OQuery 1 0 q1].
 Example c12_hb_needed_untracked_refuted :
-  w_oos (run marker_valid MOCK_DEF (fun _ => false) ops_abort2) = false /\
-  dirty_handoff (rev (w_log (run marker_valid MOCK_DEF (fun _ => false) ops_abort2))) = true /\
+  w_oos (run marker_valid MOCK_DEF (fun _ => false) no_session ops_abort2) = false /\
+  dirty_handoff (rev (w_log (run marker_valid MOCK_DEF (fun _ => false) no_session ops_abort2))) = true /\
   dirty_handoff (run_mock ops_abort2) = false.
 Proof. vm_compute. repeat split; reflexivity. Qed.
 
@@ -227,7 +255,7 @@ Definition ops_oos : list op :=
    OQuery 0 0 [SBegin]; OQuery 0 0 [SSet false (B "statement_timeout") (B "5")]; OQuery 0 0 [SCommit];
    OQuery 1 0 q1].
 Example c12_scope_guard_needed :
-  w_oos (run marker_valid MOCK_DEF is_unclean ops_oos) = true /\ dirty_handoff (run_mock ops_oos) = true /\
+  w_oos (run marker_valid MOCK_DEF is_unclean no_session ops_oos) = true /\ dirty_handoff (run_mock ops_oos) = true /\
   stmt_mismatch (run_mock ops_oos) = false.
 Proof. vm_compute. repeat split; reflexivity. Qed.
 
@@ -237,5 +265,5 @@ Definition ops_f18 : list op :=
    OQuery 0 0 [SBegin]; OQuery 0 0 [SCommit; SSet false (B "statement_timeout") (B "5")];
    OQuery 1 0 q1].
 Example c12_commit_then_set_is_cleaned :
-  w_oos (run marker_valid MOCK_DEF is_unclean ops_f18) = false /\ dirty_handoff (run_mock ops_f18) = false.
+  w_oos (run marker_valid MOCK_DEF is_unclean no_session ops_f18) = false /\ dirty_handoff (run_mock ops_f18) = false.
 Proof. vm_compute. split; reflexivity. Qed.
